@@ -123,10 +123,7 @@ func NewXClient(servicePath string, failMode FailMode, selectMode SelectMode, di
 		option:          option,
 	}
 
-	pairs := discovery.GetServices()
-	sort.Slice(pairs, func(i, j int) bool {
-		return strings.Compare(pairs[i].Key, pairs[j].Key) <= 0
-	})
+	pairs := sortedPairs(discovery.GetServices())
 	servers := make(map[string]string, len(pairs))
 	for _, p := range pairs {
 		servers[p.Key] = p.Value
@@ -162,10 +159,7 @@ func NewBidirectionalXClient(servicePath string, failMode FailMode, selectMode S
 		serverMessageChan: serverMessageChan,
 	}
 
-	pairs := discovery.GetServices()
-	sort.Slice(pairs, func(i, j int) bool {
-		return strings.Compare(pairs[i].Key, pairs[j].Key) <= 0
-	})
+	pairs := sortedPairs(discovery.GetServices())
 	servers := make(map[string]string, len(pairs))
 	for _, p := range pairs {
 		servers[p.Key] = p.Value
@@ -209,11 +203,19 @@ func (c *xClient) Auth(auth string) {
 }
 
 // watch changes of service and update cached clients.
+// sortedPairs returns a sorted COPY of a server list: the list itself belongs to the discovery and
+// is handed to every watcher, so sorting it in place from several goroutines corrupts it.
+func sortedPairs(pairs []*KVPair) []*KVPair {
+	sorted := append([]*KVPair(nil), pairs...)
+	sort.Slice(sorted, func(i, j int) bool {
+		return strings.Compare(sorted[i].Key, sorted[j].Key) <= 0
+	})
+	return sorted
+}
+
 func (c *xClient) watch(ch chan []*KVPair) {
 	for pairs := range ch {
-		sort.Slice(pairs, func(i, j int) bool {
-			return strings.Compare(pairs[i].Key, pairs[j].Key) <= 0
-		})
+		pairs = sortedPairs(pairs)
 		servers := make(map[string]string, len(pairs))
 		for _, p := range pairs {
 			servers[p.Key] = p.Value
